@@ -103,6 +103,15 @@ def c17_refparse(tier, rng):
         for trial in range(6 if tier == "quick" else 60):
             ns_t = set(rng.sample(range(0, 61), rng.randint(0, 8)))
             ns_g = set(rng.sample(range(0, 61), rng.randint(0, 8)))
+            # always: only transcript ids of IsoQuant's shape (all in known genes), only novel genes, and the smallest numbers taken
+            if trial == 0:
+                ns_g = set()
+                ns_t = ns_t | {1, 2}
+            elif trial == 1:
+                ns_t = set()
+                ns_g = ns_g | {1}
+            elif trial == 2:
+                ns_t, ns_g = {1, 2, 3, 5}, set()
             feats = [_Feat(TN.transcript_prefix + str(n) + "." + chr_id + rng.choice([TN.nic_transcript_suffix, TN.nnic_transcript_suffix]), "transcript") for n in ns_t]
             feats += [_Feat(TN.novel_gene_prefix + chr_id + "_" + str(n), "gene") for n in ns_g]
             feats += [_Feat("ENST0000%d.2" % k, "transcript") for k in range(2)] + [_Feat("ENSG000001.5", "gene"),
